@@ -288,12 +288,12 @@ structure Inv (b : Bank) (rs : List Win) : Prop where
   housed : ∀ s ∈ b.samples, ∃ r ∈ rs, r.lo ≤ s.position ∧ s.position + s.start + s.size ≤ r.lo + r.len
   placed : ∀ s ∈ b.samples, fitStart b.bankSize s.size (s.position + s.start) = s.position + s.start
 
-/-- admissible addition: the window lies inside the data handed over, sizes are below 1 GiB,
-and — the D11 exclusion — data that has to be placed fresh is not combined with a start offset -/
-structure Adm (b : Bank) (h : Sample) (data : Bytes) : Prop where
-  fits : h.start + h.size ≤ data.length
+/-- admissible addition: the data handed over is below 1 GiB (the range in which the 32-bit
+arithmetic of wave.cpp is exact).  The bank argument is kept for the callers; since the repair
+of D11 there is no condition on the start offset (a window outside the data is refused by
+`add_sample` itself: `tooLong`). -/
+structure Adm (_b : Bank) (_h : Sample) (data : Bytes) : Prop where
   small : data.length < 1073741824
-  fresh0 : findDuplicate b h data = none → h.start = 0
 
 theorem inv_new (m bk : Nat) (hm : 0 < m) (hm2 : m < 1073741824) (hb : bk < 1073741824) : Inv (Bank.new m bk) [] := by
   refine ⟨by simp [Bank.new], by simp [Bank.new], ?_, ?_, by simp [Bank.new], by simp, ?_, by simp [Bank.new, total], by simp [Bank.new], by simp [Bank.new]⟩
@@ -457,11 +457,11 @@ theorem housed_bounds {b : Bank} {rs : List Win} (inv : Inv b rs) {s : Sample} (
 /-- the "create a new entry" branch keeps the invariant, shows the requested bytes and leaves
 every byte of every older region alone -/
 theorem addFresh_step (b : Bank) (rs : List Win) (h : Sample) (data : Bytes) (b' : Bank) (idx : Nat)
-    (inv : Inv b rs) (hfits : h.start + h.size ≤ data.length) (hsmall : data.length < 1073741824) (h0 : h.start = 0)
+    (inv : Inv b rs) (hfits : h.start + h.size ≤ data.length) (hsmall : data.length < 1073741824)
     (hr : addFresh b h data = .ok (b', idx)) :
     Inv b' (rs ++ [⟨(placeFresh b h.size).2.1, h.size⟩]) ∧
-    idx = b.samples.length ∧ b'.samples = b.samples ++ [{ h with position := (placeFresh b h.size).2.1 }] ∧
-    Win.reads b'.rom ⟨(placeFresh b h.size).2.1 + h.start, h.size⟩ = (data.drop h.start).take h.size ∧
+    idx = b.samples.length ∧ b'.samples = b.samples ++ [{ h with position := (placeFresh b h.size).2.1, start := 0 }] ∧
+    Win.reads b'.rom ⟨(placeFresh b h.size).2.1, h.size⟩ = (data.drop h.start).take h.size ∧
     (∀ w : Win, (∃ r ∈ rs, r.lo ≤ w.lo ∧ w.lo + w.len ≤ r.lo + r.len) → w.reads b'.rom = w.reads b.rom) ∧
     b.currentSize ≤ b'.currentSize ∧ b'.maxSize = b.maxSize ∧ b'.bankSize = b.bankSize := by
   unfold addFresh at hr
@@ -482,7 +482,7 @@ theorem addFresh_step (b : Bank) (rs : List Win) (h : Sample) (data : Bytes) (b'
       subst hb'
       have hrl := inv.romLen
       have hw1 : sp + h.size ≤ b.rom.length := by omega
-      have hw2 : h.size ≤ data.length := by omega
+      have hw2 : h.size ≤ (data.drop h.start).length := by simp only [List.length_drop]; omega
       refine ⟨?_, hidx.symm, rfl, ?_, ?_, p2, rfl, rfl⟩
       · refine ⟨?_, p3, inv.bankPos, inv.small, p5, ?_, ?_, ?_, ?_, ?_⟩
         · simp only; rw [writeAt_length _ _ _ _ hw1 hw2]; exact hrl
@@ -504,17 +504,16 @@ theorem addFresh_step (b : Bank) (rs : List Win) (h : Sample) (data : Bytes) (b'
           rcases List.mem_append.mp hs with hs | hs
           · obtain ⟨r, hr, h1, h2⟩ := inv.housed s hs
             exact ⟨r, List.mem_append_left _ hr, h1, h2⟩
-          · have : s = { h with position := sp } := by simpa using hs
+          · have : s = { h with position := sp, start := 0 } := by simpa using hs
             subst this
             exact ⟨⟨sp, h.size⟩, List.mem_append_right _ (by simp), Nat.le_refl _, by simp only; omega⟩
         · intro s hs
           rcases List.mem_append.mp hs with hs | hs
           · exact inv.placed s hs
-          · have : s = { h with position := sp } := by simpa using hs
+          · have : s = { h with position := sp, start := 0 } := by simpa using hs
             subst this
-            simp only [h0, Nat.add_zero]; exact p1
-      · simp only [h0, Nat.add_zero, List.drop_zero]
-        exact reads_writeAt_self _ _ _ _ hw1 hw2
+            simp only [Nat.add_zero]; exact p1
+      · exact reads_writeAt_self _ _ _ _ hw1 hw2
       · intro w ⟨r, hr, hw1', hw2'⟩
         simp only
         by_cases hz : h.size = 0
@@ -536,7 +535,7 @@ theorem addFresh_step (b : Bank) (rs : List Win) (h : Sample) (data : Bytes) (b'
 structure StepOut (b : Bank) (rs rs' : List Win) (h : Sample) (data : Bytes) (b' : Bank) (idx : Nat) : Prop where
   inv : Inv b' rs'
   entry : ∃ s, b'.samples[idx]? = some s ∧ s.win.reads b'.rom = (data.drop h.start).take h.size ∧
-            s.start = h.start ∧ s.size = h.size ∧ s.rate = h.rate
+            s.start = (if (findDuplicate b h data).isSome then h.start else 0) ∧ s.size = h.size ∧ s.rate = h.rate
   stable : ∀ w : Win, (∃ r ∈ rs, r.lo ≤ w.lo ∧ w.lo + w.len ≤ r.lo + r.len) → w.reads b'.rom = w.reads b.rom
   grows : (idx < b.samples.length ∧ b'.samples = b.samples) ∨ (idx = b.samples.length ∧ ∃ s, b'.samples = b.samples ++ [s])
   same : b'.maxSize = b.maxSize ∧ b'.bankSize = b.bankSize
@@ -546,13 +545,16 @@ theorem addSample_step (b : Bank) (rs : List Win) (h : Sample) (data : Bytes) (b
     StepOut b rs (stepRegions b h data rs) h data b' idx := by
   unfold addSample at hr
   have hb0 : ¬ b.bankSize = 0 := by have := inv.bankPos; omega
-  have hsz0 : ¬ h.size > data.length := by have := adm.fits; omega
+  by_cases hsz0 : h.start + h.size > data.length
+  · simp only [hsz0, if_true] at hr; cases hr
+  have hfits : h.start + h.size ≤ data.length := by omega
   simp only [hb0, hsz0, if_false] at hr
   split at hr
   · -- shared data
     rename_i d hd
     have hsr : stepRegions b h data rs = rs := by simp [stepRegions, hd]
     rw [hsr]
+    have hdS : (findDuplicate b h data).isSome = true := by rw [hd]; rfl
     unfold findDuplicate at hd
     obtain ⟨hlt, hp, _⟩ := List.findIdx?_eq_some_iff_getElem.mp hd
     have hgd : b.samples.getD d h = b.samples[d] := by
@@ -566,7 +568,6 @@ theorem addSample_step (b : Bank) (rs : List Win) (h : Sample) (data : Bytes) (b
     have hrw := inv.regWf r hrm
     have hcur := inv.curLe
     obtain ⟨hm, hbk⟩ := inv.small
-    have hfits := adm.fits
     have epos : u32 (i.position + h.start) = i.position + h.start := u32_small (by omega)
     have erl : u32 b.rom.length = b.rom.length := u32_small (by rw [inv.romLen]; omega)
     rw [epos, erl] at t4
@@ -590,10 +591,11 @@ theorem addSample_step (b : Bank) (rs : List Win) (h : Sample) (data : Bytes) (b
       refine ⟨inv, ⟨b.samples[ri], List.getElem?_eq_getElem hlt2, ?_, ?_, ?_, ?_⟩, fun _ _ => rfl, Or.inl ⟨hlt2, rfl⟩, rfl, rfl⟩
       all_goals rw [hp2]
       · exact hcontent
+      · simp only [hdS, if_true]
       all_goals rfl
     · simp only [Except.ok.injEq, Prod.mk.injEq] at hr
       obtain ⟨rfl, rfl⟩ := hr
-      refine ⟨?_, ⟨{ h with position := i.position }, by simp, hcontent, rfl, rfl, rfl⟩, fun _ _ => rfl, Or.inr ⟨rfl, _, rfl⟩, rfl, rfl⟩
+      refine ⟨?_, ⟨{ h with position := i.position }, by simp, hcontent, by simp only [hdS, if_true], rfl, rfl⟩, fun _ _ => rfl, Or.inr ⟨rfl, _, rfl⟩, rfl, rfl⟩
       refine ⟨inv.romLen, inv.curLe, inv.bankPos, inv.small, inv.gapWf, inv.regWf, inv.tiles, inv.account, ?_, ?_⟩
       · intro s hs
         rcases List.mem_append.mp hs with hs | hs
@@ -609,8 +611,9 @@ theorem addSample_step (b : Bank) (rs : List Win) (h : Sample) (data : Bytes) (b
     rename_i hd
     have hsr : stepRegions b h data rs = rs ++ [⟨(placeFresh b h.size).2.1, h.size⟩] := by simp [stepRegions, hd]
     rw [hsr]
-    obtain ⟨q1, q2, q3, q4, q5, _, q7, q8⟩ := addFresh_step b rs h data b' idx inv adm.fits adm.small (adm.fresh0 hd) hr
-    refine ⟨q1, ⟨{ h with position := (placeFresh b h.size).2.1 }, ?_, q4, rfl, rfl, rfl⟩, q5, Or.inr ⟨q2, _, q3⟩, q7, q8⟩
-    rw [q3, q2]; simp
+    obtain ⟨q1, q2, q3, q4, q5, _, q7, q8⟩ := addFresh_step b rs h data b' idx inv hfits adm.small hr
+    refine ⟨q1, ⟨{ h with position := (placeFresh b h.size).2.1, start := 0 }, ?_, ?_, by simp [hd], rfl, rfl⟩, q5, Or.inr ⟨q2, _, q3⟩, q7, q8⟩
+    · rw [q3, q2]; simp
+    · simpa only [Sample.win, Nat.add_zero] using q4
 
 end Ctrmml.Wave
